@@ -105,6 +105,8 @@ func ReceiveDirectInvoke(w http.ResponseWriter, r *http.Request, token interop.T
 	now := metering.Monotime()
 
 	MaxDirectResponseSize = interop.MaxPayloadSize
+	// the response mode is an optional per-request header too: start every request from the default
+	InvokeResponseMode = interop.InvokeResponseModeBuffered
 	if maxPayloadSize := r.Header.Get(MaxPayloadSizeHeader); maxPayloadSize != "" {
 		if n, err := strconv.ParseInt(maxPayloadSize, 10, 64); err == nil && n >= -1 {
 			MaxDirectResponseSize = n
